@@ -80,9 +80,13 @@ theorem mono_endDriver (s : St) (how : Drv) : Mono s.ops (endDriver s how).ops :
     · exact ⟨rfl, rfl, fun h => by cases h⟩
     · split <;> exact ⟨rfl, rfl, fun h => h⟩
 
+/-- the part of `RouteInv` used here: an operation's channel points back at it -/
+def ChanOf (s : St) : Prop := ∀ (i : Nat) (o : Op) (c : Nat), s.ops[i]? = some o → o.chan = some c →
+  ∃ ch : Chan, s.chans[c]? = some ch ∧ ch.opIdx = i
+
 /-- the generic step: operations only move forward, the queue only gains operations that were
 `allocated`, the maps only gain entries for operations that were queued -/
-theorem Uniq.of_shrink {s s' : St} (h : Uniq s) (hr : RouteInv s) (hm : Mono s.ops s'.ops)
+theorem Uniq.of_shrink {s s' : St} (h : Uniq s) (hr : ChanOf s) (hm : Mono s.ops s'.ops)
     (hq : ∀ j ∈ s'.opQ, j ∈ s.opQ ∨ ∃ o, s.ops[j]? = some o ∧ o.phase = .allocated)
     (hrm : ∀ p ∈ s'.resultmap, p ∈ s.resultmap ∨ p.2 ∈ s.opQ)
     (hsm : ∀ p ∈ s'.searchmap, p ∈ s.searchmap ∨ ∃ i ∈ s.opQ, ∃ o, s.ops[i]? = some o ∧ o.chan = some p.2)
@@ -103,8 +107,8 @@ theorem Uniq.of_shrink {s s' : St} (h : Uniq s) (hr : RouteInv s) (hm : Mono s.o
     · rcases hsm _ l2 with q | ⟨i, hi, oi, hoi, q⟩
       · exact Or.inr (Or.inr (Or.inr ⟨c, by rw [← e2]; exact l1, by rw [← e1]; exact q⟩))
       · -- the operation that owns channel `c` is `j` itself
-        obtain ⟨ch1, hc1, hx1⟩ := hr.chanOf i oi c hoi q
-        obtain ⟨ch2, hc2, hx2⟩ := hr.chanOf j o c ho (by rw [← e2]; exact l1)
+        obtain ⟨ch1, hc1, hx1⟩ := hr i oi c hoi q
+        obtain ⟨ch2, hc2, hx2⟩ := hr j o c ho (by rw [← e2]; exact l1)
         rw [hc1] at hc2; cases hc2
         rw [← hx2, hx1]
         exact Or.inr (Or.inl hi)
@@ -113,5 +117,398 @@ theorem Uniq.of_shrink {s s' : St} (h : Uniq s) (hr : RouteInv s) (hm : Mono s.o
   obtain ⟨oi, hoi, ei, li0⟩ := hlive i oi' hoi' li
   obtain ⟨oj, hoj, ej, lj0⟩ := hlive j oj' hoj' lj
   exact h.uniq i j oi oj hoi hoj li0 lj0 (by rw [← ei, ← ej]; exact hid)
+
+theorem Uniq.of_same {s s' : St} (h : Uniq s) (hr : ChanOf s) (hm : Mono s.ops s'.ops) (hq : s'.opQ = s.opQ)
+    (hrm : s'.resultmap = s.resultmap) (hsm : s'.searchmap = s.searchmap) (hi : s'.inUse = s.inUse) : Uniq s' := by
+  apply h.of_shrink hr hm
+  · intro j hj; rw [hq] at hj; exact Or.inl hj
+  · intro p hp; rw [hrm] at hp; exact Or.inl hp
+  · intro p hp; rw [hsm] at hp; exact Or.inl hp
+  · rw [hrm, hsm, hi]; exact h.mapIn
+
+macro "mono_tac" : tactic => `(tactic| first
+  | exact Mono.refl _
+  | exact mono_set _ _ _ _ (by assumption) (by rfl) (by rfl) (by intro h; first | exact h | cases h))
+
+theorem Uniq.endDriver {s : St} (h : Uniq s) (hr : ChanOf s) (how : Drv) : Uniq (Conn.endDriver s how) := by
+  apply h.of_shrink hr (mono_endDriver s how)
+  · intro j hj; cases hj
+  · intro p hp; cases hp
+  · intro p hp; cases hp
+  · exact ⟨fun p hp => by simp [Conn.endDriver] at hp, fun p hp => by simp [Conn.endDriver] at hp⟩
+
+theorem Uniq.simple {s s' : St} {ob : Obs} (h : Uniq s) (hr : ChanOf s) (e : Ev)
+    (he : (∃ i, e = .poll i) ∨ (∃ c d, e = .recv c d) ∨ (∃ c b, e = .finish c b) ∨ e = .dropHandles ∨ (∃ f, e = .srvSend f) ∨
+      e = .srvClose ∨ e = .srvGarbage ∨ (∃ d, e = .tick d) ∨ e = .drvOpClosed ∨ e = .drvMiscClosed)
+    (hs : Conn.step s e = some (s', ob)) : Uniq s' := by
+  rcases he with ⟨i, rfl⟩ | ⟨c, d, rfl⟩ | ⟨c, b, rfl⟩ | rfl | ⟨f, rfl⟩ | rfl | rfl | ⟨d, rfl⟩ | rfl | rfl
+  all_goals
+    simp only [Conn.step] at hs
+    repeat' (split at hs)
+    all_goals first
+      | (cases hs; done)
+      | (simp only [Option.some.injEq, Prod.mk.injEq] at hs
+         obtain ⟨rfl, _⟩ := hs
+         first
+          | exact h
+          | exact h.endDriver hr _
+          | exact h.of_same hr (by mono_tac) rfl rfl rfl rfl)
+
+theorem Uniq.enqueue {s s' : St} {ob : Obs} (h : Uniq s) (hr : ChanOf s) (ha : Acct s) (i : Nat) (tmo : Option Nat)
+    (hs : Conn.step s (.enqueue i tmo) = some (s', ob)) : Uniq s' := by
+  simp only [Conn.step] at hs
+  split at hs
+  · cases hs
+  · next o ho =>
+    split at hs
+    · cases hs
+    · next hph =>
+      have hph : o.phase = .allocated := by simpa using hph
+      split at hs
+      · next hd =>
+        simp only [Option.some.injEq, Prod.mk.injEq] at hs
+        obtain ⟨rfl, _⟩ := hs
+        obtain ⟨d1, d2, d3⟩ := ha.dead hd
+        apply h.of_shrink hr (mono_set s.ops i o _ ho (by rfl) (by rfl) (by intro h; cases h))
+        · intro j hj; exact Or.inl hj
+        · intro p hp; exact Or.inl hp
+        · intro p hp; exact Or.inl hp
+        · refine ⟨fun p hp => ?_, fun p hp => ?_⟩
+          · have : p ∈ s.resultmap := hp
+            rw [d1] at this; cases this
+          · have : p ∈ s.searchmap := hp
+            rw [d2] at this; cases this
+      · simp only [Option.some.injEq, Prod.mk.injEq] at hs
+        obtain ⟨rfl, _⟩ := hs
+        apply h.of_shrink hr (mono_set s.ops i o _ ho (by rfl) (by rfl) (by intro h; cases h))
+        · intro j hj
+          have : j ∈ s.opQ ++ [i] := hj
+          simp only [List.mem_append, List.mem_singleton] at this
+          rcases this with q | q
+          · exact Or.inl q
+          · exact Or.inr ⟨o, by rw [q]; exact ho, hph⟩
+        · intro p hp; exact Or.inl hp
+        · intro p hp; exact Or.inl hp
+        · exact h.mapIn
+
+theorem Uniq.drvScrub {s s' : St} {ob : Obs} (h : Uniq s) (hr : ChanOf s)
+    (hs : Conn.step s .drvScrub = some (s', ob)) : Uniq s' := by
+  simp only [Conn.step] at hs
+  split at hs
+  · cases hs
+  · split at hs
+    · cases hs
+    · next k rest hq =>
+      simp only [Option.some.injEq, Prod.mk.injEq] at hs
+      obtain ⟨rfl, _⟩ := hs
+      apply h.of_shrink hr (mono_dropSenderOpt _ _)
+      · intro j hj; exact Or.inl hj
+      · intro p hp; exact Or.inl (mem_erase hp).1
+      · intro p hp; exact Or.inl (mem_erase hp).1
+      · refine ⟨fun p hp => ?_, fun p hp => ?_⟩
+        · obtain ⟨h1, h2⟩ := mem_erase hp
+          exact mem_eraseId.mpr ⟨h.mapIn.1 p h1, h2⟩
+        · obtain ⟨h1, h2⟩ := mem_erase hp
+          exact mem_eraseId.mpr ⟨h.mapIn.2 p h1, h2⟩
+
+/-- no routing entry carries the ID of a request that still waits in the queue -/
+theorem Uniq.head_not_in_maps {s : St} (h : Uniq s) (ha : Acct s) {i : Nat} {rest : List Nat} {o : Op}
+    (hq : s.opQ = i :: rest) (ho : s.ops[i]? = some o) :
+    (∀ p ∈ s.resultmap, p.1 ≠ o.id) ∧ (∀ p ∈ s.searchmap, p.1 ≠ o.id) := by
+  obtain ⟨hoq, _, hni, _, _⟩ := ha.head hq ho
+  have hlive : Live s i o := Or.inr (Or.inl (by rw [hq]; simp))
+  refine ⟨fun p hp e => ?_, fun p hp e => ?_⟩
+  · obtain ⟨o2, ho2, hid2, _⟩ := ha.rmOk p hp
+    have : p.2 = i := h.uniq p.2 i o2 o ho2 ho (Or.inr (Or.inr (Or.inl (by rw [hid2]; exact hp)))) hlive (by rw [hid2, e])
+    exact hni p hp this
+  · obtain ⟨ch, o2, hc, ho2, hid2, hch2, hpt, _⟩ := ha.smOk p hp
+    have : ch.opIdx = i := h.uniq ch.opIdx i o2 o ho2 ho
+      (Or.inr (Or.inr (Or.inr ⟨p.2, hch2, by rw [hid2]; exact hp⟩))) hlive (by rw [hid2, e])
+    rw [this, ho] at ho2; cases ho2
+    rw [hoq] at hpt; cases hpt
+
+theorem Uniq.drvOp {s s' : St} {ob : Obs} {sendOk : Bool} (h : Uniq s) (hr : ChanOf s) (ha : Acct s)
+    (hs : Conn.step s (.drvOp sendOk) = some (s', ob)) : Uniq s' := by
+  simp only [Conn.step] at hs
+  split at hs
+  · cases hs
+  · split at hs
+    · cases hs
+    · next i rest hq =>
+      split at hs
+      · cases hs
+      · next o ho =>
+        obtain ⟨hnr, hns⟩ := h.head_not_in_maps ha hq ho
+        have hset : ∀ (k : Kind) (c : Option Nat), c = o.chan →
+            Mono s.ops (s.ops.set i { o with phase := .taken, kind := k, chan := c }) :=
+          fun k c hc => mono_set s.ops i o _ ho (by rfl) hc (by intro h; cases h)
+        have hrest : ∀ j ∈ rest, j ∈ s.opQ ∨ ∃ o, s.ops[j]? = some o ∧ o.phase = .allocated :=
+          fun j hj => Or.inl (by rw [hq]; exact List.mem_cons_of_mem _ hj)
+        have hi : i ∈ s.opQ := by rw [hq]; simp
+        split at hs
+        · -- skipped
+          simp only [Option.some.injEq, Prod.mk.injEq] at hs
+          obtain ⟨rfl, _⟩ := hs
+          exact h.of_shrink hr ((hset _ _ rfl).trans (mono_dropSender _ _)) hrest (fun p hp => Or.inl hp) (fun p hp => Or.inl hp) h.mapIn
+        · next hnskip =>
+          have hidin : o.id ∈ s.inUse := by simpa using hnskip
+          split at hs
+          · -- send failure
+            simp only [Option.some.injEq, Prod.mk.injEq] at hs
+            obtain ⟨rfl, _⟩ := hs
+            apply h.of_shrink hr (((hset _ _ rfl).trans (mono_dropSender _ _)).trans (mono_endDriver _ _))
+            · intro j hj; simp [Conn.endDriver] at hj
+            · intro p hp; simp [Conn.endDriver] at hp
+            · intro p hp; simp [Conn.endDriver] at hp
+            · exact ⟨fun p hp => by simp [Conn.endDriver] at hp, fun p hp => by simp [Conn.endDriver] at hp⟩
+          · split at hs
+            · next hkind =>
+              -- single
+              simp only [Option.some.injEq, Prod.mk.injEq] at hs
+              obtain ⟨rfl, _⟩ := hs
+              simp only [hkind]
+              apply h.of_shrink hr ((hset _ _ rfl).trans (mono_dropSenderOpt _ _)) hrest
+              · intro p hp
+                rcases mem_insert hp with e | ⟨q, _⟩
+                · exact Or.inr (by rw [e]; exact hi)
+                · exact Or.inl q
+              · intro p hp; exact Or.inl hp
+              · refine ⟨fun p hp => ?_, h.mapIn.2⟩
+                rcases mem_insert hp with e | ⟨q, _⟩
+                · rw [e]; exact hidin
+                · exact h.mapIn.1 p q
+            · next hkind =>
+              -- search
+              simp only [Option.some.injEq, Prod.mk.injEq] at hs
+              obtain ⟨rfl, _⟩ := hs
+              obtain ⟨c, hchan⟩ : ∃ c, o.chan = some c := by
+                have := (ha.kindChan i o ho).mp hkind
+                cases hc : o.chan with
+                | none => exact absurd hc this
+                | some c => exact ⟨c, rfl⟩
+              simp only [hkind, hchan]
+              apply h.of_shrink hr ((hset _ _ hchan.symm).trans (mono_modify _ _ (fun o => { o with mail := .ack }) (fun o => ⟨rfl, rfl, fun h => h⟩))) hrest
+              · intro p hp; exact Or.inl hp
+              · intro p hp
+                rcases mem_insert hp with e | ⟨q, _⟩
+                · exact Or.inr ⟨i, hi, o, ho, by rw [e]; exact hchan⟩
+                · exact Or.inl q
+              · refine ⟨h.mapIn.1, fun p hp => ?_⟩
+                rcases mem_insert hp with e | ⟨q, _⟩
+                · rw [e]; exact hidin
+                · exact h.mapIn.2 p q
+            · next t hkind =>
+              -- abandon
+              simp only [Option.some.injEq, Prod.mk.injEq] at hs
+              obtain ⟨rfl, _⟩ := hs
+              simp only [hkind]
+              apply h.of_shrink hr (((hset _ _ rfl).trans (mono_dropSenderOpt _ _)).trans (mono_modify _ _ (fun o => { o with mail := .ack }) (fun o => ⟨rfl, rfl, fun h => h⟩))) hrest
+              · intro p hp; exact Or.inl (mem_erase hp).1
+              · intro p hp; exact Or.inl (mem_erase hp).1
+              · refine ⟨fun p hp => ?_, fun p hp => ?_⟩
+                · obtain ⟨h1, h2⟩ := mem_erase hp
+                  exact mem_eraseId.mpr ⟨mem_eraseId.mpr ⟨h.mapIn.1 p h1, fun e => hnr p h1 (by exact_mod_cast e)⟩, h2⟩
+                · obtain ⟨h1, h2⟩ := mem_erase hp
+                  exact mem_eraseId.mpr ⟨mem_eraseId.mpr ⟨h.mapIn.2 p h1, fun e => hns p h1 (by exact_mod_cast e)⟩, h2⟩
+            · next hkind =>
+              -- unbind
+              simp only [Option.some.injEq, Prod.mk.injEq] at hs
+              obtain ⟨rfl, _⟩ := hs
+              simp only [hkind]
+              exact h.of_shrink hr ((hset _ _ rfl).trans (mono_modify _ _ (fun o => { o with mail := .ack }) (fun o => ⟨rfl, rfl, fun h => h⟩))) hrest
+                (fun p hp => Or.inl hp) (fun p hp => Or.inl hp) h.mapIn
+
+theorem Uniq.route {s : St} (h : Uniq s) (hr : ChanOf s) (ha : Acct s) (n c : Nat) (f : Frame)
+    (hmem : (n, c) ∈ s.searchmap) (hn : (n : Int) = f.id) : Uniq (routeSearch s c f) := by
+  -- no single-result entry carries the ID of a registered search
+  have hnr : ∀ p ∈ s.resultmap, (p.1 : Int) ≠ f.id := by
+    intro p hp e
+    obtain ⟨o2, ho2, hid2, _, hm2, _⟩ := ha.rmOk p hp
+    obtain ⟨ch, o3, hc, ho3, hid3, hch3, _, hm3, _⟩ := ha.smOk _ hmem
+    have hpn : p.1 = n := by rw [← hn] at e; exact_mod_cast e
+    have : p.2 = ch.opIdx := h.uniq p.2 ch.opIdx o2 o3 ho2 ho3
+      (Or.inr (Or.inr (Or.inl (by rw [hid2]; exact hp))))
+      (Or.inr (Or.inr (Or.inr ⟨c, hch3, by rw [hid3]; exact hmem⟩))) (by rw [hid2, hid3]; exact hpn)
+    rw [this, ho3] at ho2; cases ho2
+    rw [hm3] at hm2; cases hm2
+  have key : ∀ (b : Bool) (chans' : List Chan),
+      Uniq (if b = true then ({ s with chans := chans', searchmap := erase s.searchmap f.id, inUse := eraseId s.inUse f.id } : St)
+        else { s with chans := chans' }) := by
+    intro b chans'
+    cases b with
+    | true =>
+      rw [if_pos rfl]
+      refine Uniq.of_shrink h hr ?_ ?_ ?_ ?_ ?_
+      · exact Mono.refl _
+      · intro j hj; exact Or.inl hj
+      · intro p hp; exact Or.inl hp
+      · intro p hp; exact Or.inl (mem_erase hp).1
+      · refine ⟨fun p hp => ?_, fun p hp => ?_⟩
+        · exact mem_eraseId.mpr ⟨h.mapIn.1 p hp, hnr p hp⟩
+        · obtain ⟨h1, h2⟩ := mem_erase hp
+          exact mem_eraseId.mpr ⟨h.mapIn.2 p h1, h2⟩
+    | false =>
+      rw [if_neg (by simp)]
+      refine Uniq.of_shrink h hr ?_ (fun j hj => Or.inl hj) (fun p hp => Or.inl hp) (fun p hp => Or.inl hp) h.mapIn
+      exact Mono.refl _
+  unfold routeSearch
+  by_cases h1 : f.op = 4 ∨ f.op = 25 ∨ f.op = 19
+  · simp only [h1, if_true]
+    exact key _ _
+  · simp only [h1, if_false]
+    by_cases h2 : f.op = 5
+    · simp only [h2, if_true]
+      by_cases h3 : f.good = true
+      · simp only [h3, if_true]
+        exact key _ _
+      · simp only [h3]
+        exact h.endDriver hr _
+    · simp only [h2, if_false]
+      exact h.endDriver hr _
+
+theorem Uniq.drvResp {s s' : St} {ob : Obs} (h : Uniq s) (hr : ChanOf s) (ha : Acct s)
+    (hs : Conn.step s .drvResp = some (s', ob)) : Uniq s' := by
+  simp only [Conn.step] at hs
+  split at hs
+  · cases hs
+  · split at hs
+    · next f hf =>
+      have h1 : Uniq ({ s with pos := s.pos + 1 } : St) := h.of_same hr (Mono.refl _) rfl rfl rfl rfl
+      split at hs
+      · next c hl =>
+        simp only [Option.some.injEq, Prod.mk.injEq] at hs
+        obtain ⟨n, hmem, hn⟩ := lookup_some hl
+        rw [← hs.1]
+        have ha1 : Acct ({ s with pos := s.pos + 1 } : St) := ha.congr rfl rfl rfl rfl rfl rfl rfl rfl
+        exact h1.route hr ha1 n c f hmem hn
+      · next hl =>
+        split at hs
+        · next i hl2 =>
+          simp only [Option.some.injEq, Prod.mk.injEq] at hs
+          obtain ⟨rfl, _⟩ := hs
+          apply h.of_shrink hr (mono_modify _ _ _ (fun o => by split <;> exact ⟨rfl, rfl, fun h => h⟩))
+          · intro j hj; exact Or.inl hj
+          · intro p hp; exact Or.inl (mem_erase hp).1
+          · intro p hp; exact Or.inl hp
+          · refine ⟨fun p hp => ?_, fun p hp => ?_⟩
+            · obtain ⟨q1, q2⟩ := mem_erase hp
+              exact mem_eraseId.mpr ⟨h.mapIn.1 p q1, q2⟩
+            · exact mem_eraseId.mpr ⟨h.mapIn.2 p hp, lookup_none hl p hp⟩
+        · simp only [Option.some.injEq, Prod.mk.injEq] at hs
+          rw [← hs.1]; exact h1
+    · split at hs
+      · cases hs
+      · simp only [Option.some.injEq, Prod.mk.injEq] at hs
+        rw [← hs.1]; exact h.endDriver hr _
+      · simp only [Option.some.injEq, Prod.mk.injEq] at hs
+        rw [← hs.1]; exact h.endDriver hr _
+
+theorem nextIdAux_notin (N last : Nat) (inUse : List Nat) (k : Nat) : ∀ (fuel cur : Nat),
+    nextIdAux N last inUse fuel cur = .ok k → k ∉ inUse := by
+  intro fuel
+  induction fuel with
+  | zero => intro cur h; unfold nextIdAux at h; cases h
+  | succ f ih =>
+    intro cur h
+    unfold nextIdAux at h
+    simp only at h
+    generalize (if cur = N then 1 else cur + 1) = nxt at h
+    by_cases hc : inUse.contains nxt = true
+    · rw [if_neg (by simpa using hc)] at h
+      split at h
+      · cases h
+      · exact ih _ h
+    · rw [if_pos (by simpa using hc)] at h
+      simp only [AllocOut.ok.injEq] at h
+      rw [← h]
+      simpa using hc
+
+theorem nextId_notin {N last : Nat} {inUse : List Nat} {k : Nat} (h : nextId N last inUse = .ok k) : k ∉ inUse :=
+  nextIdAux_notin N last inUse k _ _ h
+
+theorem Uniq.alloc {s s' : St} {ob : Obs} (h : Uniq s) (kind : Kind) (hf : FreshAt2 s (.alloc kind))
+    (hs : Conn.step s (.alloc kind) = some (s', ob)) : Uniq s' := by
+  simp only [Conn.step] at hs
+  cases hn : nextId s.N s.last s.inUse with
+  | diverge => rw [hn] at hs; cases hs
+  | panic =>
+    rw [hn] at hs
+    simp only [Option.some.injEq, Prod.mk.injEq] at hs
+    rw [← hs.1]; exact h
+  | ok k =>
+    rw [hn] at hs
+    simp only [Option.some.injEq, Prod.mk.injEq] at hs
+    obtain ⟨rfl, _⟩ := hs
+    have hnotin := nextId_notin hn
+    have hfresh := hf kind rfl k hn
+    -- an operation of the new state is an old one or the new one
+    have hcase : ∀ (nw : Op), nw.id = k → ∀ (j : Nat) (oj : Op), (s.ops ++ [nw])[j]? = some oj →
+        s.ops[j]? = some oj ∨ (j = s.ops.length ∧ oj.id = k) := by
+      intro nw hnw j oj hj
+      by_cases hlt : j < s.ops.length
+      · rw [List.getElem?_append_left hlt] at hj; exact Or.inl hj
+      · rw [List.getElem?_append_right (by omega)] at hj
+        by_cases he : j - s.ops.length = 0
+        · rw [he] at hj
+          simp only [List.getElem?_cons_zero, Option.some.injEq] at hj
+          exact Or.inr ⟨by omega, by rw [← hj]; exact hnw⟩
+        · have : (j - s.ops.length) = (j - s.ops.length - 1) + 1 := by omega
+          rw [this] at hj; simp at hj
+    -- a live old operation does not carry the new ID
+    have hold : ∀ (j : Nat) (oj : Op), s.ops[j]? = some oj → Live s j oj → oj.id ≠ k := by
+      intro j oj hoj hl e
+      rcases hl with l | l | l | ⟨c, _, l⟩
+      · exact hfresh j oj hoj (Or.inl l) e
+      · exact hfresh j oj hoj (Or.inr l) e
+      · exact hnotin (by rw [← e]; exact h.mapIn.1 _ l)
+      · exact hnotin (by rw [← e]; exact h.mapIn.2 _ l)
+    refine ⟨?_, fun p hp => List.mem_cons_of_mem _ (h.mapIn.1 p hp), fun p hp => List.mem_cons_of_mem _ (h.mapIn.2 p hp)⟩
+    intro i j oi oj hoi hoj li lj hid
+    rcases hcase _ rfl i oi hoi with hi | ⟨hi, hki⟩ <;> rcases hcase _ rfl j oj hoj with hj | ⟨hj, hkj⟩
+    · exact h.uniq i j oi oj hi hj li lj hid
+    · exact absurd (by rw [hid, hkj]) (hold i oi hi li)
+    · exact absurd (by rw [← hid, hki]) (hold j oj hj lj)
+    · rw [hi, hj]
+
+theorem Uniq.step {s s' : St} {ob : Obs} (h : Uniq s) (hr : RouteInv s) (ha : Acct s) (e : Ev) (hf : FreshAt2 s e)
+    (hs : Conn.step s e = some (s', ob)) : Uniq s' := by
+  cases e with
+  | alloc k => exact h.alloc k hf hs
+  | enqueue i t => exact h.enqueue hr.chanOf ha i t hs
+  | poll i => exact h.simple hr.chanOf _ (Or.inl ⟨i, rfl⟩) hs
+  | recv c d => exact h.simple hr.chanOf _ (Or.inr (Or.inl ⟨c, d, rfl⟩)) hs
+  | finish c b => exact h.simple hr.chanOf _ (Or.inr (Or.inr (Or.inl ⟨c, b, rfl⟩))) hs
+  | dropHandles => exact h.simple hr.chanOf _ (Or.inr (Or.inr (Or.inr (Or.inl rfl)))) hs
+  | srvSend f => exact h.simple hr.chanOf _ (Or.inr (Or.inr (Or.inr (Or.inr (Or.inl ⟨f, rfl⟩))))) hs
+  | srvClose => exact h.simple hr.chanOf _ (Or.inr (Or.inr (Or.inr (Or.inr (Or.inr (Or.inl rfl)))))) hs
+  | srvGarbage => exact h.simple hr.chanOf _ (Or.inr (Or.inr (Or.inr (Or.inr (Or.inr (Or.inr (Or.inl rfl))))))) hs
+  | tick d => exact h.simple hr.chanOf _ (Or.inr (Or.inr (Or.inr (Or.inr (Or.inr (Or.inr (Or.inr (Or.inl ⟨d, rfl⟩)))))))) hs
+  | drvOpClosed => exact h.simple hr.chanOf _ (Or.inr (Or.inr (Or.inr (Or.inr (Or.inr (Or.inr (Or.inr (Or.inr (Or.inl rfl))))))))) hs
+  | drvMiscClosed => exact h.simple hr.chanOf _ (Or.inr (Or.inr (Or.inr (Or.inr (Or.inr (Or.inr (Or.inr (Or.inr (Or.inr rfl))))))))) hs
+  | drvScrub => exact h.drvScrub hr.chanOf hs
+  | drvOp ok => exact h.drvOp hr.chanOf ha hs
+  | drvResp => exact h.drvResp hr.chanOf ha hs
+
+theorem Uniq.run' (evs : List Ev) : ∀ s, Uniq s → Acct s → RouteInv s → FreshRun2 s evs →
+    Uniq (Conn.run s evs) ∧ Acct (Conn.run s evs) ∧ RouteInv (Conn.run s evs) := by
+  induction evs with
+  | nil => intro s h ha hr _; exact ⟨h, ha, hr⟩
+  | cons e es ih =>
+    intro s h ha hr hf
+    have hf : FreshAt2 s e ∧ FreshRun2 (next s e) es := hf
+    rw [run_cons]
+    cases hst : Conn.step s e with
+    | none =>
+      have : next s e = s := by simp only [next, hst]
+      rw [this] at hf ⊢
+      exact ih s h ha hr hf.2
+    | some p =>
+      obtain ⟨s', ob⟩ := p
+      have : next s e = s' := by simp only [next, hst]
+      rw [this] at hf ⊢
+      exact ih s' (h.step hr ha e hf.1 hst) (ha.step hr e hf.1.weaken hst) (hr.step e hst) hf.2
+
+theorem Uniq.run (N : Nat) (evs : List Ev) (hf : FreshRun2 (Conn.init N) evs) : Uniq (Conn.run (Conn.init N) evs) :=
+  (Uniq.run' evs _ (Uniq.init N) (Acct.init N) (RouteInv.init N) hf).1
 
 end Ldap3V.Conn
